@@ -335,6 +335,7 @@ structure Request where
   defs : List Name := []
   mode : Mode := .ok
   obs : List Name := []
+  uses : List Name := []     -- identifiers the program itself refers to (its last expression but one)
 deriving Repr, Inhabited
 
 def runRequestsI (rollbackBoth : Bool) (g : Graph) : IM → List Request → IM
@@ -483,8 +484,10 @@ def evalRequestM (fix : Fix) (g : Graph) (st : MState) (r : Request) : MState ×
         let tbl1 := imps.foldl (fun t i => (i.1, i.2.val) :: t) scratch.tbl
         let tbl2 := r.defs.foldl (fun t d => (d, ⟨.top st.nreq, d, false⟩) :: t) tbl1
         let views := emitted0.map fun k => (k, resolveView g scratch tbl2 k)
-        if !(views.all fun kv => kv.2.all (·.2.isSome)) then
-          -- a module body refers to an unbound name: free identifier, rolled back as a build failure
+        if !((views.all fun kv => kv.2.all (·.2.isSome)) && r.uses.all fun n => (tbl2.lookup n).isSome) then
+          -- a module body, or the program itself, refers to an unbound name: free identifier, found when the
+          -- program is built (before anything of it runs) and rolled back as a build failure — here whether the
+          -- request fails is an OUTPUT of the machine
           let (im1, status1, _) := evalRequestI fix.rollback g st.im r.specs r.mode true
           ({ st with im := im1, nreq := nreq }, status1)
         else if clashes scratch emitted0 (imps.map (·.1) ++ r.defs) then
@@ -515,8 +518,11 @@ def evalRequestS (g : Graph) (ms : List SMod) (st : SState) (r : Request) : SSta
     match imported, needs.all (fun k => (ms.getD k ⟨[], [], true⟩).ok) with
     | some env, true =>
       let env := env.bindAll (r.defs.map fun d => (d, ⟨.top st.nreq, d, false⟩))
-      (⟨env, st.inst ++ needs.filter (· ∉ st.inst), nreq⟩,
-        if r.mode = .failRuntime then .errRuntime else .ok)
+      -- the program refers to a name that is not bound: rejected before anything runs
+      if !(r.uses.all fun n => (env.lookup n).isSome) then ({ st with nreq := nreq }, .errFreeId)
+      else
+        (⟨env, st.inst ++ needs.filter (· ∉ st.inst), nreq⟩,
+          if r.mode = .failRuntime then .errRuntime else .ok)
     | _, _ => ({ st with nreq := nreq }, .errRequire)
 
 def sView (g : Graph) (ms : List SMod) (k : Nat) : List (Name × Option Val) :=
@@ -581,6 +587,6 @@ def graphGuard (compose : Bool) (g : Graph) : Bool :=
 
 def reqGuard (compose : Bool) (g : Graph) (ms : List SMod) (r : Request) : Bool :=
   r.specs.all (fun s => decide (s.target < g.length) && specOK compose ms s) &&
-    ((sImports (sExports ms) r.specs).map (·.1) ++ r.defs).all fun n => decide (SourceIdent n)
+    ((sImports (sExports ms) r.specs).map (·.1) ++ r.defs ++ r.uses).all fun n => decide (SourceIdent n)
 
 end SteelVerif.C14
